@@ -15,6 +15,9 @@ CHECKS = {
     "C02": dict(engine="e1-conform", technique="bounded-exhaustive enumeration of rule shapes x inputs on real generated parsers; structural comparison of the Debug tree with the reference tree",
                 text="All field-carrying trees up to the node bound, the override family, and every context x field-bundle x tail combination, on all inputs up to the length bound: the Debug tree of the real result, read structurally, must hold exactly the reference's matches per field, in order, with the right variant.",
                 ref="§3 C02"),
+    "C03": dict(engine="e2-shapes", technique="bounded-exhaustive enumeration of rule shapes x names x derive sets through the real code generator, with rustc as the checker of generated exact-type assertions",
+                text="The C02 shape space (all field trees up to the node bound, override family, contexts x bundles x tails), 11 rule kinds x 11 bundles x 5 wrappers, recursive shapes whose cycle is broken by * or Vec under 4 directive sets, and every raw-able Rust keyword as field name, rule name and @char rule name, rotating over 5 derive sets: each generated module is compiled (crate carries forbid(unsafe_code)) together with assertions computed from the documented mapping - exhaustive destructuring without `..`, a typed let per field (Option/Vec/Box/enum exactly), wildcard-free matches over every generated enum with typed payloads, PegPosition/PegParser/derive bounds. A module rustc rejects is attributed to its grammar.",
+                ref="§3 C03", note="Trusted: rustc as judge; engine/refpeg/src/shape.rs as the reading of the documented mapping. Outside the quantifier: names colliding with prelude/peginator items."),
     "C04": dict(engine="e1-conform", technique="bounded-exhaustive enumeration of byte-level-sensitive grammars x multi-byte inputs on real parsers with the cfg(peginator_verif) boundary assertion on",
                 text="Trees over multi-byte literals, ASCII/non-ASCII ranges, insensitive literals, char, @char classes and an extern rule, on every string up to the length bound over a 10-character alphabet chosen for shared continuation bytes and case-folding traps: no panic (the hook turns a split sequence into one), every exposed offset on a char boundary, every string a substring, acceptance equal to the reference.",
                 ref="§3 C04"),
@@ -63,6 +66,9 @@ CHECKS = {
     "C18": dict(engine="tools-c18", level="model_checking", technique="explicit-state breadth-first search over build-script histories to the fixpoint of the reachable state set; every run transition executed by the real Compile on a real directory",
                 text="States (grammar content, prefix, destination bytes) per mode - file mode with explicit/default destination, with rustfmt, directory mode with two files - are explored breadth-first to a fixpoint (quick: 1746 runs over 1746 reachable states and 15098 transitions); after every run the destination must be header+prefix+code of the current grammar, an up-to-date destination must keep bytes and mtime, a failing run must leave destinations untouched (other files of a directory run: untouched or complete).",
                 ref="§3 C18", note="Trusted: the library route (generate_source_header, Grammar::from_str, generate_code) as the definition of the expected file; token-wise comparison after the comment header. Outside the alphabet: CRC collisions, concurrent runs, missing rustfmt, derive/user-context changes."),
+    "C20": dict(engine="e6-sched", level="model_checking", technique="exhaustive DFS over thread interleavings (shuttle) of real generated parsers with every tracer callback a scheduling point; plus exhaustive enumeration of sequential call histories up to length 3",
+                text="For 20 (thorough: 40) memoized and left-recursive grammars: every ordered sequence of parse calls up to length 3 (one thread, and alternating fresh threads) and, under shuttle's exhaustive DFS scheduler, every interleaving of two (thorough: also three) concurrent parses chosen to collide on the same rules and offsets - every complete schedule's results must equal the reference model's per input. Quick: 193k schedules / 2.3M scheduling points and 75k histories.",
+                ref="§3 C20", note="Granularity: rule entry/exit/cache notices (the tracer seam); finer interleavings are not explored. Shuttle threads share OS thread-locals, so hidden thread-local state is seen as shared state. Trusted: shuttle's DFS scheduler, the reference model."),
 }
 
 NOT_YET = {}
@@ -103,6 +109,10 @@ def main():
         "engines": [
             {"name": "e1-conform", "path": "engine/ (refpeg, pgen, hrt) + verif", "serves_properties": [k for k, v in CHECKS.items() if v["engine"] == "e1-conform"],
              "kind_free_text": "bounded-exhaustive explorer: enumerates grammars x inputs, runs real codegen -> rustc -> generated parser, compares with the reference model refpeg"},
+            {"name": "e2-shapes", "path": "engine/ (refpeg/src/shape.rs, pgen) + lib/prop_c03.py", "serves_properties": ["C03"],
+             "kind_free_text": "bounded-exhaustive shape enumeration with rustc as checker of generated exact-type assertions"},
+            {"name": "e6-sched", "path": "engine/sched + lib/prop_c20.py", "serves_properties": ["C20"],
+             "kind_free_text": "stateless model checking of real generated parsers: shuttle exhaustive DFS over interleavings at tracer callbacks, plus sequential history enumeration"},
             {"name": "tools", "path": "engine/tools", "serves_properties": [k for k, v in CHECKS.items() if v["engine"].startswith("tools")],
              "kind_free_text": "explorers that drive the runtime / front end / code generator / Compile directly"},
         ],
